@@ -54,6 +54,9 @@ def new_sim(exec_tape, root=None, *, preempt=0.3, step_cap=20000, clock=False, f
     simmanager.install()
     if root is not None:
         simfs.SimFS(sim, root, **(fs_kwargs or {}))
+        # file modification times come from a virtual coarse clock (0/1 tick per write): quick rewrites of a file
+        # may share a timestamp, as on coarse-granularity file systems (only matters to code that reads mtimes)
+        sim.fs.coarse_mtime = True
     if clock:
         simclock.SimClock(sim)
     return sim
